@@ -241,7 +241,18 @@ pub fn cli_chunker_args(cfg: &Cfg) -> Vec<String> {
                 "BuzHash".into()
             },
             "--avg-chunk-size".into(),
-            format!("{}", 1usize << (cfg.bits + 1)),
+            {
+                // The documented rule: the average rounds DOWN to a power of two. A third of
+                // the configurations therefore ask for a size that is not one (still within
+                // min..max), which must record the same filter bits.
+                let avg = 1usize << (cfg.bits + 1);
+                let hi = (2 * avg - 1).min(cfg.max);
+                if (cfg.window + cfg.min + cfg.max) % 3 == 1 && hi > avg {
+                    format!("{}", avg + (cfg.max * 7 + cfg.min) % (hi - avg + 1))
+                } else {
+                    format!("{}", avg)
+                }
+            },
             "--min-chunk-size".into(),
             format!("{}", cfg.min),
             "--max-chunk-size".into(),
